@@ -22,3 +22,21 @@ claim('C02',
   note='Trusted as C01. The independent checker in h_tree.c and qtreetbl_check() are monitors, not the reason the check passes.',
   technique='Rocq inductive invariant proof (LLRB shape classes for put/remove/remove_min) + extracted-model lockstep with shape comparison',
   design='5.2')
+claim('C06',
+  text='Theorems (closed under the global context; premise: the stored (length, 16-byte prefix, MD5) identifies the key): for every capacity and every history of put/get/remove the image model of qhasharr.c '
+       '(header counters + slot records; find_avail, get_idx, multi-slot put_data with roll-back, relocation of a foreign collision/extension block with back-link repair, promotion of a collision key on removal) '
+       'returns exactly the results of the ideal bounded map whose put succeeds iff a slot is free and the value fits into the free slots plus those released by the value it replaces, and whose failed put leaves its own key unchanged or absent and every other key untouched (C06_refines); '
+       'key count and used-slot count equal the ideal map\'s (C06_accounting); per-operation forms C06_put_new/put_existing/get, remove-by-index = removal of the key in that slot (C06_remove_by_idx), walk = every stored key once (C06_walk), clear. '
+       'Slot payload sizes come from a compiled probe of the headers. Tie: lockstep of implementation, extracted image model (every slot field, both counters) and extracted ideal map on random histories (capacities 2..64, forced collisions, key lengths 1..65535 around the 16-byte limit, '
+       'value lengths around every slot boundary) and all put/del histories of bounded depth on small tables.',
+  note='Trusted: Coq kernel, extraction, gen_consts.py probe, gcc, h_harr.c, d_harr.ml, the Python murmur3_32 used to tell the model each key\'s home slot (a wrong value shows up as a slot mismatch). Assumes no MD5 collision among same-length same-prefix keys of a history. getnext hands out at most the first 16 bytes of a long key (API limit; compared as stored).',
+  technique='Rocq refinement proof with a representation invariant over slot layouts (1900 lines) + slot-by-slot lockstep of extracted model vs implementation',
+  design='5.6')
+claim('C07',
+  text='Theorems: after every operation of every history of the full interface (put/get/remove/remove-by-index/clear/size/walk) and for every capacity the image is well formed (C07_wf, C07_wf_step): every occupied slot belongs to exactly one key, '
+       'value chains are intact, acyclic, terminated and back-linked, collision counts match, every non-empty home has its leader, keys are distinct, header counters equal the slot census; all occupied indices and links lie inside the table (C07_indices_in_table); '
+       'operations are functions of the image alone (C07_relocatable: nothing of the handle or its address enters). Tie: as C06, with the region placed between inaccessible pages, copied byte for byte to other addresses/alignments in mid-history, re-attached with memsize 0 and continued in lockstep with the model; '
+       'an independent well-formedness checker runs on every dumped image.',
+  note='Partial by nature: that the C code never touches a byte outside the region is observed (guard pages, every run) not proved - the model indexes a total slot function; struct padding and stale bytes of free slots are outside the model. Trusted as C06.',
+  technique='Rocq inductive invariant (Rep) over all histories and capacities + lockstep with relocation of the memory region',
+  design='5.7')
